@@ -54,8 +54,10 @@ def evaluate(text):
         res["outcome"] = "excluded:lazy-interrupt-ambiguity"
         res["count"] = {"excluded_spec_vs_reference_ambiguity": 1}
     else:
-        res["fail"] = ("html-differs", {"pymarkdown": html, "reference": ref})
-        res["outcome"] = "html-differs"
+        detail = {"pymarkdown": html, "reference": ref}
+        sig = "html-differs:" + _class(detail)
+        res["fail"] = (sig, detail)
+        res["outcome"] = sig
     return res
 
 
@@ -83,8 +85,19 @@ def _html_tokens(h):
     return out
 
 
+def _class(detail):
+    a = _html_tokens(cmark.norm(detail["pymarkdown"]))
+    b = _html_tokens(cmark.norm(detail["reference"]))
+    i = 0
+    while i < min(len(a), len(b)) and a[i] == b[i]:
+        i += 1
+    x = a[i] if i < len(a) else "end"
+    y = b[i] if i < len(b) else "end"
+    return "text" if x == y else f"{x}-vs-{y}"
+
+
 def classify(key, sig, detail):
-    if sig != "html-differs":
+    if not sig.startswith("html-differs"):
         return sig, f"HTML generation fails on a document that parses ({sig})"
     a = _html_tokens(cmark.norm(detail["pymarkdown"]))
     b = _html_tokens(cmark.norm(detail["reference"]))
